@@ -694,6 +694,8 @@ func crashRerun(c *Ctx) {
 			crashOam(&cc, ww)
 		case "prog":
 			crashProg(&cc, ww)
+		case "apu":
+			crashApu(&cc, ww)
 		}
 		ww.Close()
 		for _, f := range ww.Files {
